@@ -91,6 +91,12 @@ class _PartDomain(Domain):
                 if self.ev(f.value, st) == 'WHOLE':
                     return 'PARTS'
                 return '?'
+            if isinstance(f, ast.Attribute) and f.attr == 'pop' and \
+                    len(e.args) == 1 and isinstance(
+                        e.args[0], ast.Constant) and \
+                    e.args[0].value == 0 and \
+                    self.ev(f.value, st) == 'PARTS':
+                return 'INT'        # parts.pop(0): the integer part
             return '?'
         if isinstance(e, ast.Subscript):
             b = self.ev(e.value, st)
@@ -134,6 +140,12 @@ class _PartDomain(Domain):
             ns = st.copy()
             for t in stmt.targets:
                 self.bind(t, stmt.value, st, ns)
+            v_ = stmt.value
+            if isinstance(v_, ast.Call) and isinstance(
+                    v_.func, ast.Attribute) and v_.func.attr == 'pop' and \
+                    isinstance(v_.func.value, ast.Name) and \
+                    st.env.get(v_.func.value.id) == 'PARTS':
+                ns.env[v_.func.value.id] = 'FRAC'
         elif isinstance(stmt, ast.Delete):
             # `del vl[0]`: the list no longer starts with the integer part
             ns = st.copy()
@@ -320,11 +332,20 @@ def rule_stages(model):
                    if isinstance(n, ast.Assign) and
                    isinstance(n.targets[0], ast.Name) and
                    norm(n.value) == 'self.fmt'}
+    def _size_read(v):
+        # args['size'] / args.get('size') / int(<one of those>)
+        if isinstance(v, ast.Call) and isinstance(v.func, ast.Name) and \
+                v.func.id == 'int' and len(v.args) == 1:
+            v = v.args[0]
+        return (isinstance(v, ast.Subscript) and isinstance(
+            v.slice, ast.Constant) and v.slice.value == 'size') or (
+            isinstance(v, ast.Call) and isinstance(v.func, ast.Attribute)
+            and v.func.attr == 'get' and v.args and isinstance(
+                v.args[0], ast.Constant) and v.args[0].value == 'size')
     size_aliases = {n.targets[0].id for n in own_nodes(fi.node)
                     if isinstance(n, ast.Assign) and
-                    isinstance(n.targets[0], ast.Name) and any(
-                        isinstance(x, ast.Constant) and x.value == 'size'
-                        for x in ast.walk(n.value))}
+                    isinstance(n.targets[0], ast.Name) and
+                    _size_read(n.value)}
     for i, st in enumerate(body):
         for n in ast.walk(st):
             if isinstance(n, ast.Return) and n.value is not None and \
